@@ -17,10 +17,10 @@
 (*  escaped (exception type), status, step_status], reports (plug-in       *)
 (*  run/reports_c15.py): json [present valid features], readback [done     *)
 (*  parse_exc exc features], plain / p1 / p2 / p3 [present lines].         *)
-(*  Beyond the families of Consumers.tla the read-back has two of its own: *)
-(*  parse_open_mode (json_parser.parse() opens the file with mode "rU")    *)
-(*  and line_is_text (the returned model carries its line numbers as text, *)
-(*  str(feature.location) raises TypeError).                               *)
+(*  Read-back: json_parser.parse(file) must not raise (parse_exc) and the   *)
+(*  returned model must carry integer line numbers (line_is_text: with     *)
+(*  text, str(feature.location) raises TypeError) -- both were defects of  *)
+(*  the code and are repaired; a return is a plain violation.              *)
 (***************************************************************************)
 EXTENDS Consumers, Json, IOUtils
 Rows == ndJsonDeserialize(IOEnv.TRACE_FILE)
@@ -32,47 +32,28 @@ XOf(r) == [dry |-> r.cfg.dry,
            nsteps |-> [el \in DOMAIN r.prog |-> Len(r.prog[el].steps)],
            defd |-> [el \in DOMAIN r.prog |-> [p \in DOMAIN r.prog[el].steps |-> r.prog[el].steps[p].def]],
            st |-> r.end.status, sst |-> r.end.step_status]
-\* which step a match belongs to is not part of the callback: the j-th match of a scenario belongs to its j-th step, in a
-\* dry run to its j-th DEFINED step (Run.tla); bad = that step's converter raises (MatchWithError)
-StepOfMatch(r, s, j) ==
-   IF ~Scenario(r, s) THEN 0
-   ELSE LET st == r.prog[s].steps
-            ds == IF r.cfg.dry /\ ~CodeGen.dryundef THEN SelectSeq(Ids(Len(st)), LAMBDA p : st[p].def) ELSE Ids(Len(st)) IN
-        IF j \in DOMAIN ds THEN ds[j] ELSE 0
-AnnNext(r, a, e) ==
-   LET plain == FE(e.name, e.el, e.pos, e.status, e.undefined, FALSE, e.n) IN
-   IF e.name = "scenario" THEN [cur |-> e.el, mc |-> 0, out |-> Append(a.out, plain)]
-   ELSE IF e.name = "match" THEN
-        LET p == StepOfMatch(r, a.cur, a.mc + 1)
-            bad == p # 0 /\ ~e.undefined /\ r.prog[a.cur].steps[p].o = "badarg" IN
-        [cur |-> a.cur, mc |-> a.mc + 1, out |-> Append(a.out, [plain EXCEPT !.bad = bad])]
-   ELSE [a EXCEPT !.out = Append(@, plain)]
-Events(r) == Fold(LAMBDA a, e : AnnNext(r, a, e), [cur |-> 0, mc |-> 0, out |-> <<>>], r.events, 1).out
+\* the recorded callbacks as events of Consumers.tla (bad: since the repair of DESIGN section 8 #11 a MatchWithError is an
+\* ordinary match for every formatter, the flag is not needed on recorded streams)
+Events(r) == [k \in DOMAIN r.events |-> LET e == r.events[k] IN FE(e.name, e.el, e.pos, e.status, e.undefined, FALSE, e.n)]
 
 Has(r, name) == \E k \in DOMAIN r.formats : r.formats[k] = name
 
 \* ---------------------------------------------------------------- a run that died
 CrashOf(name, evs, X) ==
-   CASE name \in {"json", "json.pretty"} -> JsonRun(evs, X, CodeFix).crash
+   CASE name \in {"json", "json.pretty"} -> JsonRun(evs, X).crash
      [] name = "plain" -> PlainRun(evs, X).crash
      [] name \in {"progress2", "progress3"} -> ProgRun(evs).crash
      [] name = "progress" -> SProgRun(evs, X).crash
-     [] name = "pretty" -> PrettyCrash(evs, CodeFix)
      [] OTHER -> ""
+\* the culprit (signature only): the first formatter of the run whose automaton crashes on the recorded stream
 Died(r) ==
    LET evs == Events(r)
        X == XOf(r)
        cr == [k \in DOMAIN r.formats |-> CrashOf(r.formats[k], evs, X)]
        hit == {k \in DOMAIN cr : cr[k] # ""}
-       \* the crashing callback is the last one the recording formatter saw -- in the dry-run emulation each formatter
-       \* gets match + result in one go, so there the result of that step follows
-       n == Len(evs)
-       lastBad == \/ n >= 1 /\ evs[n].name = "match" /\ evs[n].bad
-                  \/ n >= 2 /\ r.cfg.dry /\ evs[n].name = "result" /\ evs[n - 1].name = "match" /\ evs[n - 1].bad
    IN IF hit = {} THEN {<<"C15.no_crash", "unattributed|at=" \o (IF evs = <<>> THEN "start" ELSE evs[Len(evs)].name) \o "|exc=" \o r.end.escaped>>}
       ELSE LET k == CHOOSE x \in hit : \A y \in hit : x <= y IN
-           {<<Fam("C15.no_crash", IF cr[k] = "TypeError" /\ lastBad /\ r.end.escaped = "TypeError" THEN KF_ARG ELSE "none"),
-              "fmt=" \o r.formats[k] \o "|exc=" \o r.end.escaped>>}
+           {<<"C15.no_crash", "fmt=" \o r.formats[k] \o "|exc=" \o r.end.escaped>>}
 
 \* ---------------------------------------------------------------- a run that came to its end
 Verdicts(r) ==
@@ -88,8 +69,8 @@ Verdicts(r) ==
            \cup (IF hasJ THEN JsonMirror(J, X, a) ELSE {})
            \cup (IF hasJ /\ rp.readback.done
                  THEN (IF rp.readback.parse_exc # ""
-                       THEN {<<Fam("C15.json_readback", IF rp.readback.parse_exc = "ValueError" THEN "parse_open_mode" ELSE "none"), "parse:" \o rp.readback.parse_exc>>} ELSE {})
-                      \cup (IF rp.readback.line_is_text THEN {<<"C15.json_readback/line_is_text", "location">>} ELSE {})
+                       THEN {<<"C15.json_readback", "parse:" \o rp.readback.parse_exc>>} ELSE {})
+                      \cup (IF rp.readback.line_is_text THEN {<<"C15.json_readback", "line_is_text">>} ELSE {})
                       \cup (IF rp.readback.exc # "" THEN {<<"C15.json_readback", "parse_features:" \o rp.readback.exc>>}
                             ELSE ReadBackClause(rp.readback.features, J))
                  ELSE {})
@@ -104,11 +85,11 @@ Diverges(r) ==
    ELSE LET evs == Events(r)
             X == XOf(r)
             rp == r.reports
-            j == JsonRun(evs, X, CodeFix)
+            j == JsonRun(evs, X)
         IN (IF rp.json.present /\ rp.json.valid /\ (j.crash # "" \/ j.out # rp.json.features) THEN {"json"} ELSE {})
            \cup (IF rp.json.present /\ rp.json.valid # (j.crash = "" /\ ToksValid(j.toks)) THEN {"json_text"} ELSE {})
            \cup (IF rp.json.present /\ rp.json.valid /\ rp.readback.done /\ rp.readback.exc = ""
-                    /\ ReadBack(rp.json.features, CodeFix) # rp.readback.features THEN {"readback"} ELSE {})
+                    /\ ReadBack(rp.json.features) # rp.readback.features THEN {"readback"} ELSE {})
            \cup (IF rp.plain.present /\ PlainRun(evs, X).lines # rp.plain.lines THEN {"plain"} ELSE {})
            \cup (IF rp.p2.present /\ ProgRun(evs).p2 # rp.p2.lines THEN {"progress2"} ELSE {})
            \cup (IF rp.p3.present /\ ProgRun(evs).p3 # rp.p3.lines THEN {"progress3"} ELSE {})
